@@ -1341,7 +1341,17 @@ func (w *c13World) discCase(t *testing.T, out *vh.Out, z c13Zone) {
 	ck, cn, trTok, tmTok, _ := w.oracle(d, ch)
 	op := fmt.Sprintf("C13 disc z=%s %s %s %s %s", z.code(), ck, cn, trTok, tmTok)
 
-	dd := &daneDelivery{c: &danePolicy{extResolver: d.ext, log: log.Logger{Name: "remote/dane"}}}
+	// One policy-delivery object serves every MX candidate (and recipient domain) of a message:
+	// keep it for a few consecutive cases, as the remote target does, so that state left over
+	// from an earlier PrepareConn/CheckConn would show.
+	if c13SharedDD == nil || c13SharedDDUses >= 3 {
+		c13SharedDD = &daneDelivery{c: &danePolicy{extResolver: d.ext, log: log.Logger{Name: "remote/dane"}}}
+		c13SharedDDUses = 0
+	}
+	c13SharedDDUses++
+	dd := c13SharedDD
+	dd.c.extResolver = d.ext
+	out.Stat(fmt.Sprintf("conn/delivery-reuse:%d", c13SharedDDUses))
 	ctx, cancel := context.WithTimeout(context.Background(), 30*time.Second)
 	defer cancel()
 	recs, err := dd.discoverTLSA(ctx, c13MXFQ)
@@ -1517,6 +1527,11 @@ func c13GoodZones(all []c13Zone) []c13Zone {
 
 // ---------------------------------------------------------------- PrepareConn + CheckConn against a DNS server
 
+var (
+	c13SharedDD     *daneDelivery
+	c13SharedDDUses int
+)
+
 func (w *c13World) connCase(t *testing.T, out *vh.Out, z c13Zone, ck string, hs bool) {
 	ch := w.chains[ck]
 	d := w.dns
@@ -1524,7 +1539,17 @@ func (w *c13World) connCase(t *testing.T, out *vh.Out, z c13Zone, ck string, hs 
 	ock, ocn, trTok, tmTok, _ := w.oracle(d, ch)
 	op := fmt.Sprintf("C13 conn z=%s;%s 1 %s %s %s %s %s %s", z.code(), ck, ock, ocn, trTok, tmTok, c13b(hs), ch.token())
 
-	dd := &daneDelivery{c: &danePolicy{extResolver: d.ext, log: log.Logger{Name: "remote/dane"}}}
+	// One policy-delivery object serves every MX candidate (and recipient domain) of a message:
+	// keep it for a few consecutive cases, as the remote target does, so that state left over
+	// from an earlier PrepareConn/CheckConn would show.
+	if c13SharedDD == nil || c13SharedDDUses >= 3 {
+		c13SharedDD = &daneDelivery{c: &danePolicy{extResolver: d.ext, log: log.Logger{Name: "remote/dane"}}}
+		c13SharedDDUses = 0
+	}
+	c13SharedDDUses++
+	dd := c13SharedDD
+	dd.c.extResolver = d.ext
+	out.Stat(fmt.Sprintf("conn/delivery-reuse:%d", c13SharedDDUses))
 	ctx, cancel := context.WithTimeout(context.Background(), 30*time.Second)
 	defer cancel()
 	dd.PrepareConn(ctx, c13MX)
